@@ -254,6 +254,12 @@ def run_history(ctx, text, ops, info, reqs_out):
         fam = "attrpath" if in_family else "plain"
         dotted = any("." in kk and not kk.startswith('"') for kk in keys + [op[2]])
         key = {"op": op[0], "family": fam, "dotted": dotted, "nested": bool(keys)}
+        if in_family:
+            # which part of an attrpath family is addressed: the root (or an inner prefix), an existing
+            # leaf (a Binding of its own, writable), or a new key of the merged set
+            key["target"] = ("root" if tuple(names) in parents else
+                             "leaf" if existing is not None and not isinstance(existing, dict) else
+                             "new-key" if existing is None else "subset")
         if r["res"] != "ok":
             if r["res"] not in ("key", "type", "value"):
                 ctx.fail({"clause": "exception-class", "class": r["res"], **key}, inp, f"{op!r} raised {r['exc']}")
